@@ -51,10 +51,10 @@ def all_single_edits(walk, k):
         yield ("D", p, "")
 
 
-def judge(rows, k, start, walk, corrupted, edits, check, has_indel, labels, heap=1e9):
+def judge(rows, k, start, walk, corrupted, edits, check, has_indel, labels, heap=1e9, layout=None):
     """Run one repair and apply the statement.  Returns an error string or None."""
     result, lookups, _ = repairing.run_repair(rows, k, start, corrupted, check=check, has_indel=has_indel,
-                                              heap_size=heap)
+                                              heap_size=heap, layout=layout)
     what = "repair_dna(%r, k=%d, start=%d, check=%r, has_indel=%s) [original %r, edits %r]" \
            % (corrupted, k, start, check, has_indel, walk, edits)
     if isinstance(result, str):
@@ -145,7 +145,8 @@ def multi_cases(draw, tier):
         edits.append([kind, p, c])
     heap = draw(st.sampled_from(["1e9", "inf"])) if count <= 4 else "1e4"
     return {"graph": spec, "start": start, "walk": walk, "edits": edits,
-            "check_len": draw(st.sampled_from([0, 0, 4, 8])), "heap": heap}
+            "check_len": draw(st.sampled_from([0, 0, 4, 8])), "heap": heap,
+            "layout": draw(st.sampled_from([None, None, None, "F", "strided", "int32"]))}
 
 
 def evaluate_multi(case):
@@ -171,12 +172,12 @@ def evaluate_multi(case):
     heap = float(case.get("heap", "1e9"))
     if len(edits) > 4:
         heap = min(heap, 1e4)  # replayed cases too: never enumerate an astronomically large candidate product
-    detail = judge(rows, k, start, walk, corrupted, edits, check, True, labels, heap)
+    detail = judge(rows, k, start, walk, corrupted, edits, check, True, labels, heap, case.get("layout"))
     if detail:
         return bad(detail, labels)
     if all(e[0] == "S" for e in edits):
         labels.append("subs_only")
-        detail = judge(rows, k, start, walk, corrupted, edits, check, False, [], heap)
+        detail = judge(rows, k, start, walk, corrupted, edits, check, False, [], heap, case.get("layout"))
         if detail:
             return bad(detail, labels)
     return Outcome(True, "detected_all" in labels, labels)
